@@ -191,3 +191,52 @@ Proof.
   - destruct (u32_add (gk_height (fresh t)) (c_duration (cfg (fresh t)))); [|cbn [wrap]; intros H; inversion H; apply same_ledger_fresh].
     destruct (amem (db_users (fresh t)) u); cbn [wrap]; intros H; inversion H. apply same_ledger_fresh.
 Qed.
+
+(* ------------------------------------------------------------------------------------------ *)
+(* 4. operations that do not touch the ledger *)
+
+Theorem get_bal le t signer loc sc t' x : step le t (OGet signer loc) sc = (t', x) -> same_ledger t t'.
+Proof.
+  intros H. destruct (get_unchanged le t sc signer loc) as [r Hr]. rewrite Hr in H. inversion H. apply same_ledger_fresh.
+Qed.
+
+Theorem getsub_bal le t signer sc t' x : step le t (OGetSub signer) sc = (t', x) -> same_ledger t t'.
+Proof.
+  intros H. destruct (getsub_unchanged le t sc signer) as [r Hr]. rewrite Hr in H. inversion H. apply same_ledger_fresh.
+Qed.
+
+Lemma same_ledger_trans a b c : same_ledger a b -> same_ledger b c -> same_ledger a c.
+Proof. unfold same_ledger. intuition congruence. Qed.
+
+Definition res_state {A} (r : res A) : tower := match r with Ok _ t => t | Abort _ t => t end.
+
+Lemma disconnect_listeners hash h t :
+  same_ledger t (res_state (run_listeners (listener_disconnected hash h) Consts.LISTENER_ORDER t)).
+Proof.
+  unfold Consts.LISTENER_ORDER. cbn [run_listeners].
+  change (listener_disconnected hash h 0 t) with (gk_block_disconnected t h).
+  unfold gk_block_disconnected. destruct (u32_sub h 1) as [h'|]; cbn [bind res_state]; [|repeat split].
+  change (listener_disconnected hash h 1 (set_gk_height t h')) with (w_block_disconnected (set_gk_height t h') hash h).
+  unfold w_block_disconnected. destruct (u32_sub h 1) as [h''|]; cbn [bind res_state]; repeat split.
+Qed.
+
+Theorem disconnect_bal le t sc t' x : step le t ODisconnect sc = (t', x) -> same_ledger t t'.
+Proof.
+  cbn [step]. change (set_rpc_log t []) with (fresh t).
+  destruct (last_hash (fresh t)) as [hash|]; [|intros H; inversion H; apply same_ledger_fresh].
+  pose proof (disconnect_listeners hash (gk_height (fresh t)) (fresh t)) as Hd.
+  destruct (run_listeners (listener_disconnected hash (gk_height (fresh t))) Consts.LISTENER_ORDER (fresh t)) as [u t1|s t1];
+    cbn [wrap res_state] in *; intros H; inversion H; subst;
+    (eapply same_ledger_trans; [apply same_ledger_fresh|exact Hd]).
+Qed.
+
+(* ODisconnect changes only heights, the two indexes and `reorged` (besides the ghost log) *)
+Theorem other_ops_bal le t o sc t' x :
+  match o with OGet _ _ | OGetSub _ | ODisconnect => True | _ => False end ->
+  step le t o sc = (t', x) ->
+  same_ledger t t' /\ forall v, aget (db_users t') v = aget (db_users t) v /\ bal t' v = bal t v.
+Proof.
+  intros Ho H. assert (Hs : same_ledger t t').
+  { destruct o; try contradiction; [eapply get_bal|eapply getsub_bal|eapply disconnect_bal]; exact H. }
+  split; [exact Hs|apply same_ledger_bal; exact Hs].
+Qed.
